@@ -20,6 +20,7 @@ var (
 	errFailedToClose                 = errors.New("turn: Server failed to close")
 	errFailedToRetransmitTransaction = errors.New("turn: failed to retransmit transaction")
 	errAllRetransmissionsFailed      = errors.New("all retransmissions failed for")
+	errTransactionIDInUse            = errors.New("turn: a transaction with this ID is in progress")
 	errChannelBindNotFound           = errors.New("no binding found for channel")
 	errSTUNServerAddressNotSet       = errors.New("STUN server address is not set for the client")
 	errOneAllocateOnly               = errors.New("only one Allocate() caller is allowed")
